@@ -117,6 +117,41 @@ impl<V> RegexTreeMap<V> {
     pub fn iter_mut(&mut self) -> ItemIterMut<'_, V> {
         self.root.iter_mut()
     }
+
+    /// Read-only structural snapshot: (depth, kind, prefix or pattern, number of values, compiled).
+    #[cfg(redirectionio_verif)]
+    pub fn verif_snapshot(&self) -> Vec<(usize, &'static str, String, usize, bool)> {
+        fn walk<V>(item: &Item<V>, depth: usize, out: &mut Vec<(usize, &'static str, String, usize, bool)>) {
+            match item {
+                Item::Empty(_) => out.push((depth, "empty", String::new(), 0, false)),
+                Item::Leaf(leaf) => out.push((
+                    depth,
+                    "leaf",
+                    leaf.regex.original.clone(),
+                    leaf.values.len(),
+                    leaf.regex.compiled.is_some(),
+                )),
+                Item::Node(node) => {
+                    out.push((
+                        depth,
+                        "node",
+                        node.regex.original.clone(),
+                        node.children.len(),
+                        node.regex.compiled.is_some(),
+                    ));
+
+                    for child in &node.children {
+                        walk(child, depth + 1, out);
+                    }
+                }
+            }
+        }
+
+        let mut out = Vec::new();
+        walk(&self.root, 0, &mut out);
+
+        out
+    }
 }
 
 #[cfg(feature = "dot")]
